@@ -217,8 +217,15 @@ static void abort_report(const char* cls)
     const char* hint = g_shared ? g_shared->hint : "";
     const char* desc = g_shared ? g_shared->desc : "";
     const std::string prop = crash_property(g_ctx->profile, g_ctx->armed, hint);
-    int n = snprintf(buf, sizeof buf, "V\t%s\t%s%s\t%s|%s\t%d\t%s\n", prop.c_str(), prop == "C01" ? "" : "crash:", cls, cls, hint,
-                     g_shared ? (int)g_shared->step : -1, desc);
+    // signature: the kind of input, not its particulars (offsets of the injected faults)
+    char kind[64];
+    size_t kl = strcspn(hint, "+");
+    if (kl >= sizeof kind)
+        kl = sizeof kind - 1;
+    memcpy(kind, hint, kl);
+    kind[kl] = 0;
+    int n = snprintf(buf, sizeof buf, "V\t%s\t%s%s\t%s|%s\t%d\t%s hint=%s\n", prop.c_str(), prop == "C01" ? "" : "crash:", cls, cls, kind,
+                     g_shared ? (int)g_shared->step : -1, desc, hint);
     if (!prop.empty()) {
         if (n > 0)
             (void)!::write(g_ctx->out_fd, buf, (size_t)std::min<int>(n, (int)sizeof buf - 1));
@@ -659,7 +666,7 @@ static RunResult reap(Child& c)
             }
         } else {
             v.cls = "abnormal-exit";
-            v.signature = "exit=" + std::to_string(WIFEXITED(st) ? WEXITSTATUS(st) : -1) + "|" + hint;
+            v.signature = "exit=" + std::to_string(WIFEXITED(st) ? WEXITSTATUS(st) : -1) + "|" + hint.substr(0, hint.find('+'));
             v.detail = "exit status " + std::to_string(WIFEXITED(st) ? WEXITSTATUS(st) : -1) + " during " + desc + "\n" +
                        r.stderr_text.substr(0, 600);
             if (!c.shared->in_call) {
@@ -811,7 +818,10 @@ static RunSpec shrink(const RunSpec& start, const VRec& want, int nsteps, int& r
     RunSpec best = start;
     // minimisation is a service, not a verdict: it gets a wall-clock budget (a violation that takes the watchdog to show
     // would otherwise cost minutes per candidate); the unminimised plan replays just as well
-    const double t_end = now_s() + 45.0;
+    static double batch_end = 0;  // ... and all minimisations of one invocation together get 90 s
+    if (batch_end == 0)
+        batch_end = now_s() + 90.0;
+    const double t_end = std::min(now_s() + 45.0, batch_end);
     auto fails = [&](const RunSpec& s) {
         if (now_s() > t_end)
             return false;
